@@ -141,7 +141,12 @@ Resolve(path) ==                                          \* the file a path nam
     IF Len(path) # 8 \/ \E i \in 2 .. 4 : path[i] < 48 \/ path[i] > 57 THEN 0
     ELSE LET n == (path[2] - 48) * 100 + (path[3] - 48) * 10 + (path[4] - 48) IN
          IF n >= 1 /\ n <= NFiles /\ FName(n) = path THEN n ELSE 0
-Opens(f) == f > 0 /\ KindOf(f) = "ok"                    \* I: a file is accepted iff it exists and starts with the magic line
+\* The magic line of a file is "<NAME-VERSION>"; NAME must be the CURRENT program name (libast_set_program_name) at the time the
+\* file is opened, compared without regard to case (C) - whatever the name was when earlier files were opened (S: the parse
+\* depends on its input and the current settings only).  cfg.prog = current program name, cfg.magic[f] = NAME in file f's first
+\* line (cfg.magic = <<>>: every file carries the current name).  X: program names longer than 27 characters.
+MagicOf(f) == IF cfg.magic = <<>> THEN cfg.prog ELSE cfg.magic[f]
+Opens(f) == f > 0 /\ KindOf(f) = "ok" /\ LowerSeq(MagicOf(f)) = LowerSeq(cfg.prog)   \* I: accepted iff it exists and starts with the magic line
 
 ------------------------------------------------------------------------------------------------
 (* the mechanism *)
@@ -159,7 +164,7 @@ Emit(c) == /\ calls' = Append(calls, c)
            /\ tokc' = IF c.h = 0 THEN tokc ELSE tokc + 1
 
 Snap(ci, cc, si, sc, fi, fc, nv) == [c_idx |-> ci, c_cnt |-> cc, cs_idx |-> si, cs_cnt |-> sc, f_idx |-> fi, f_cnt |-> fc, nvars |-> nv]
-FilesNow == [f \in 1 .. NFiles |-> [name |-> FName(f), kind |-> KindOf(f), lines |-> [i \in 1 .. FLen(f) |-> LineOf(FLine(f, i))]]]
+FilesNow == [f \in 1 .. NFiles |-> [name |-> FName(f), kind |-> KindOf(f), magic |-> MagicOf(f), lines |-> [i \in 1 .. FLen(f) |-> LineOf(FLine(f, i))]]]
 Input    == [cfg |-> cfg, reg |-> RegList, files |-> FilesNow]
 
 Init ==
